@@ -144,7 +144,16 @@ pub fn run_stress(case: &Value) -> Value {
                 break "maxpolls";
             }
             if polls == drop_at {
-                drop(body.take());
+                if it % 2 == 0 {
+                    drop(body.take());
+                } else {
+                    // dropped during panic unwinding
+                    let b = body.take();
+                    let _ = std::panic::catch_unwind(std::panic::AssertUnwindSafe(move || {
+                        let _held = b;
+                        panic!("unwinding with the body alive");
+                    }));
+                }
                 cdropped.store(true, Ordering::SeqCst);
                 break "dropped";
             }
